@@ -20,9 +20,9 @@ import random
 from harness import core, lib_units
 from harness.core import to_dec, to_dec2
 
-NUMS = [1.0, 3.7, -40.0, 2]
+NUMS = [1.0, 3.7, -40.0, 2, 0, 0.0, -0.0]      # zero (int, float, negative zero) is a value, not 'omitted'
 TEMP_NUMS = [1.0, 3.7, -40.0, 0.0, 273.15]
-MACHINERY_CLAUSES = ('MachineryWitness', 'MachineryOrder', 'MachinerySymbol', 'UnknownEvent',
+MACHINERY_CLAUSES = ('MachineryWitness', 'MachineryOrder', 'MachinerySymbol', 'MachineryNoZeroProbe', 'UnknownEvent',
                      'UnknownAccessor')
 ACCESSORS = [('P0', 'pressure', None), ('T0', 'temp', None), ('V0', 'volume', None),
              ('m_e', 'mass', 'amu'), ('m_p', 'mass', 'amu')]
